@@ -612,7 +612,7 @@ def main():
     try:
         sys.path.insert(0, os.path.dirname(os.path.abspath(__file__)))
         import funcs
-        broken.extend(funcs.generate())
+        broken.extend(funcs.generate_all())
     except Exception as e:  # the function translator must never take the other extractions down with it
         broken.append(f"funcs: translator crashed: {type(e).__name__} {e}")
 
